@@ -38,6 +38,47 @@ type c19Node struct {
 	AllOf    []*c19Node `json:"allOf,omitempty"`
 	Defs     []c19Prop  `json:"defs,omitempty"`
 	Title    string     `json:"title,omitempty"`
+	// SharedOrders (root only): all PropertyOrder slices of the tree are carved out of one backing
+	// array, each with the others' entries in its spare capacity — what slicing one list for several
+	// schemas (full[:2], full[2:]) leaves behind.
+	SharedOrders bool `json:"shared_orders,omitempty"`
+	// OrderLike: an unknown keyword with an order-like name holding a list of this node's property
+	// names (in Extra): it says nothing about how "properties" is written.
+	OrderLike     string   `json:"order_like,omitempty"`
+	OrderLikeList []string `json:"order_like_list,omitempty"`
+}
+
+var c19Arena *[]string
+
+func (n *c19Node) totalOrder() int {
+	t := len(n.Order)
+	for _, p := range n.Props {
+		if p.Child != nil {
+			t += p.Child.totalOrder()
+		}
+	}
+	if n.Items != nil {
+		t += n.Items.totalOrder()
+	}
+	for _, a := range n.AllOf {
+		t += a.totalOrder()
+	}
+	for _, p := range n.Defs {
+		if p.Child != nil {
+			t += p.Child.totalOrder()
+		}
+	}
+	return t
+}
+
+// buildTree builds the Schema tree of a case.
+func (n *c19Node) buildTree() *jsonschema.Schema {
+	if n.SharedOrders {
+		a := make([]string, 0, n.totalOrder()+4)
+		c19Arena = &a
+		defer func() { c19Arena = nil }()
+	}
+	return n.build()
 }
 
 var c19Names = []string{"A", "B", "C", "a", "b", "Z", "\u00e9", "e\u0301", "<", "&", "", " ", "a b", "\"", "\\", "\u2028", "0", "10", "9", "~", "/", "type", "properties", "\x01", "del\x7f", "\v", "\U0001f600"}
@@ -51,7 +92,20 @@ func (n *c19Node) build() *jsonschema.Schema {
 		}
 	}
 	if n.HasOrder {
-		s.PropertyOrder = append([]string{}, n.Order...)
+		if c19Arena != nil {
+			start := len(*c19Arena)
+			*c19Arena = append(*c19Arena, n.Order...)
+			s.PropertyOrder = (*c19Arena)[start:len(*c19Arena)]
+		} else {
+			s.PropertyOrder = append([]string{}, n.Order...)
+		}
+	}
+	if n.OrderLike != "" {
+		l := make([]any, len(n.OrderLikeList))
+		for i, x := range n.OrderLikeList {
+			l[i] = x
+		}
+		s.Extra = map[string]any{n.OrderLike: l}
 	}
 	if n.Items != nil {
 		s.Items = n.Items.build()
@@ -239,7 +293,7 @@ func equalStrings(a, b []string) bool {
 
 func checkC19(n *c19Node) *failure {
 	return guard(func() *failure {
-		s := n.build()
+		s := n.buildTree()
 		first, err := json.Marshal(s)
 		if n.anyDup() {
 			if err == nil {
@@ -269,7 +323,7 @@ func checkC19(n *c19Node) *failure {
 			}
 		}
 		// a freshly built, identical Schema value must give the same bytes too
-		other, err := json.Marshal(n.build())
+		other, err := json.Marshal(n.buildTree())
 		if err != nil || !bytes.Equal(first, other) {
 			return failf("equal Schema values marshal differently:\n %s\n %s (%v)", first, other, err)
 		}
@@ -385,6 +439,11 @@ func genC19Node(t *rapid.T, depth int) *c19Node {
 			n.Order = append(n.Order, perm[rapid.IntRange(0, len(perm)-1).Draw(t, "dupi")])
 		}
 	}
+	if len(names) >= 2 && rapid.IntRange(0, 3).Draw(t, "orderlike") == 0 {
+		n.OrderLike = rapid.SampledFrom([]string{"propertyOrdering", "propertyOrder", "x-propertyOrder", "x-order", "ui:order", "displayOrder", "order", "PropertyOrder", "propertyorder"}).Draw(t, "orderlikekw")
+		perm := rapid.Permutation(append([]string{}, names...)).Draw(t, "orderlikeperm")
+		n.OrderLikeList = perm[:rapid.IntRange(1, len(perm)).Draw(t, "orderlikelen")]
+	}
 	if depth > 0 {
 		if rapid.IntRange(0, 5).Draw(t, "items") == 0 {
 			n.Items = genC19Node(t, depth-1)
@@ -451,6 +510,8 @@ func TestC19(t *testing.T) {
 
 	rapid.Check(t, func(t *rapid.T) {
 		n := genC19Node(t, rapid.IntRange(0, 3).Draw(t, "depth"))
+		n.SharedOrders = rapid.IntRange(0, 2).Draw(t, "sharedorders") == 0
+		rec.ClassIf(n.SharedOrders, "orders:carved-from-one-backing-array")
 		nt := n.nontrivial()
 		rec.ClassIf(n.anyDup(), "duplicate-order-entries")
 		rec.ClassIf(!n.anyDup(), "no-duplicates")
